@@ -659,6 +659,48 @@ func (a *attack) apply(op Op) {
 			t.CreateAttr("xmlns", ns)
 		}
 		a.note("foreignns %s mode=%s", t.Tag, op.Mode)
+	case "smuggle":
+		// an evil copy of an assertion (in clear or encrypted to the SP) hidden as a DESCENDANT in a
+		// region the enveloped-signature transform leaves uncovered (inside ds:Signature) or that a
+		// lenient reader might search (Status, Extensions, Advice, Subject, Object)
+		src := pick(byTag(a.root, "Assertion"), op.I)
+		if src == nil && a.second != nil {
+			src = pick(byTag(a.second, "Assertion"), op.I)
+		}
+		hosts := byTag(a.root, "Signature", "KeyInfo", "X509Data", "SignedInfo", "Object", "Status", "Extensions", "Advice", "Subject", "Issuer", "Response")
+		host := pick(hosts, op.J)
+		if src == nil || host == nil {
+			return
+		}
+		e := src.Copy()
+		for _, sg := range e.ChildElements() {
+			if sg.Tag == "Signature" {
+				e.RemoveChild(sg)
+			}
+		}
+		evilize(e)
+		e.CreateAttr("ID", "id-smuggled-"+fmt.Sprint(len(a.log)))
+		a.forged = true
+		var n *etree.Element = e
+		if op.Mode != "clear" {
+			if e.SelectAttr("xmlns:saml") == nil && e.Space == "saml" {
+				e.CreateAttr("xmlns:saml", forge.NSAssertion)
+			}
+			ea, err := forge.EncryptAssertion(forge.Bytes(e), &forge.EncSpec{To: "sp", Seed: uint64(op.J) + 191, Layout: op.Where})
+			if err != nil {
+				return
+			}
+			n = ea
+		}
+		if op.Key == "in-object" {
+			host = ensureChild(host, "ds:Object", false)
+		}
+		if op.Sig == "first" && len(host.Child) > 0 {
+			host.InsertChildAt(0, n)
+		} else {
+			host.AddChild(n)
+		}
+		a.note("smuggle %s evil assertion into %s", op.Mode, host.Tag)
 	case "fakesig":
 		// an element merely *named* Signature (foreign / no / right namespace, empty or copied content)
 		t := pick(byTag(a.root, "Response", "Assertion", "ArtifactResponse"), op.I)
@@ -850,7 +892,7 @@ var whereGrid = []string{"child-last", "child-first", "in-signature-object", "in
 var sigGrid = []string{"keep-in-genuine", "copy-to-evil", "move-to-evil"}
 
 func genOp(t *rapid.T) Op {
-	kind := rapid.SampledFrom([]string{"xsw", "xsw", "xsw", "evilize", "evilize", "copy", "move", "remove", "remove", "splice", "setid", "refuri", "keyinfo", "resign", "resign", "comment", "foreignns", "fakesig", "encrypt", "encrypt"}).Draw(t, "kind")
+	kind := rapid.SampledFrom([]string{"xsw", "xsw", "xsw", "evilize", "evilize", "copy", "move", "remove", "remove", "splice", "setid", "refuri", "keyinfo", "resign", "resign", "comment", "foreignns", "fakesig", "smuggle", "smuggle", "encrypt", "encrypt"}).Draw(t, "kind")
 	op := Op{Kind: kind, I: rapid.IntRange(0, 11).Draw(t, "i"), J: rapid.IntRange(0, 23).Draw(t, "j")}
 	switch kind {
 	case "xsw":
@@ -875,6 +917,11 @@ func genOp(t *rapid.T) Op {
 		op.Mode = rapid.SampledFrom([]string{"comment", "comment", "pi", "cdata"}).Draw(t, "mode")
 	case "foreignns":
 		op.Mode = rapid.SampledFrom([]string{"evil-ns", "no-ns", "rebind-prefix", "default-ns"}).Draw(t, "mode")
+	case "smuggle":
+		op.Mode = rapid.SampledFrom([]string{"clear", "encrypted", "encrypted"}).Draw(t, "mode")
+		op.Where = rapid.SampledFrom([]string{"", "sibling"}).Draw(t, "layout")
+		op.Key = rapid.SampledFrom([]string{"direct", "in-object"}).Draw(t, "wrap")
+		op.Sig = rapid.SampledFrom([]string{"last", "first"}).Draw(t, "pos")
 	case "fakesig":
 		op.Mode = rapid.SampledFrom([]string{"evil-ns", "no-ns", "dsig-empty", "copy-foreign"}).Draw(t, "mode")
 		op.Where = rapid.SampledFrom([]string{"after-issuer", "last"}).Draw(t, "pos")
@@ -1051,6 +1098,39 @@ func enumFakeSignatures(_ string, emit func(Case)) {
 	}
 }
 
+// enumSmuggle: an evil assertion (clear / encrypted, nested or sibling key) hidden in every
+// candidate host element of genuinely signed messages, directly or inside a ds:Object.
+func enumSmuggle(_ string, emit func(Case)) {
+	layouts := []Genuine{
+		{NAssert: 1, RespSigner: "idp", AsrtSigner: []string{""}, Encrypted: []bool{false}},
+		{NAssert: 1, RespSigner: "", AsrtSigner: []string{"idp"}, Encrypted: []bool{false}},
+		{NAssert: 1, RespSigner: "idp", AsrtSigner: []string{"idp"}, Encrypted: []bool{false}},
+		{NAssert: 1, RespSigner: "idp", AsrtSigner: []string{""}, Encrypted: []bool{true}},
+	}
+	for _, entry := range []string{"xml", "artifact"} {
+		for _, g := range layouts {
+			for host := 0; host < 14; host++ {
+				for _, mode := range []string{"clear", "encrypted"} {
+					for _, lay := range []string{"", "sibling"} {
+						if mode == "clear" && lay != "" {
+							continue
+						}
+						for _, wrap := range []string{"direct", "in-object"} {
+							for _, pos := range []string{"last", "first"} {
+								c := Case{Trust: "meta1", Entry: entry, G: g, G2: g.Encrypted[0]}
+								c.G.AsrtSigner = append([]string{}, g.AsrtSigner...)
+								c.G.Encrypted = append([]bool{}, g.Encrypted...)
+								c.Ops = []Op{{Kind: "smuggle", I: 0, J: host, Mode: mode, Where: lay, Key: wrap, Sig: pos}}
+								emit(c)
+							}
+						}
+					}
+				}
+			}
+		}
+	}
+}
+
 var prop = &pbt.Prop[Case]{
 	ID: "C01",
 	Rule: "cases: a message built and signed by the harness (layouts Response/Assertion/both/neither/first-only signed, 1-2 assertions, plain or encrypted to the SP, signer in {trusted, second trusted, IdP encryption-only key, untrusted key with the same subject DN}, several signature methods, canonicalisers and KeyInfo styles, optionally inside a signed/unsigned ArtifactResponse) " +
@@ -1061,7 +1141,7 @@ var prop = &pbt.Prop[Case]{
 	Gen:   gen,
 	Check: check,
 	Reset: fix.Reset,
-	Enums: []pbt.Enum[Case]{{Name: "xsw-placement-grid", Each: enumXSWGrid}, {Name: "untrusted-signers", Each: enumUntrusted}, {Name: "fake-signature-elements", Each: enumFakeSignatures}},
+	Enums: []pbt.Enum[Case]{{Name: "xsw-placement-grid", Each: enumXSWGrid}, {Name: "untrusted-signers", Each: enumUntrusted}, {Name: "fake-signature-elements", Each: enumFakeSignatures}, {Name: "smuggled-descendant-assertions", Each: enumSmuggle}},
 	Assumptions: []string{
 		"absence of an accepting forgery is shown only for the generated program space",
 		"the dsig clock is pinned inside the fixtures' certificate validity",
